@@ -223,4 +223,39 @@ def run (h : Helper) (tk : TypeKind) (hb : Option HelperBeh) (cases : List Case)
         if h.isMarshal then (if isForMarshal c.constraint then marshalCase h.isBinary c else false)
         else (if isForUnmarshal c.constraint then unmarshalCase hb c else false))
 
+/-! ## hooks that edit the case
+
+`Before` and `After` receive a `*Case…`; whatever they write into it is what the helper reads afterwards:
+`Value` after `Before` (the marshaled value / the argument of `New` and the expected value), `Error` and `Data`
+after `After`. `Constraint` is read *before* `Before` runs, so writing it has no effect on the run. The script
+gives every hook an optional edit; a hook that is absent (`Hook.nil`) writes nothing. -/
+structure Edit where
+  data : Option (Option Bytes)    -- `some d`: the hook sets `c.Data = d`
+  value : Option Int              -- the hook sets (the number held by) `c.Value`
+  pred : Option Pred              -- the hook sets `c.Error`
+  constraint : Option Nat         -- the hook sets `c.Constraint` (too late to matter)
+  deriving DecidableEq, Repr
+
+def Edit.none : Edit := ⟨.none, .none, .none, .none⟩
+
+/-- the hook's assignments, in the order the helper will read the fields; the constraint is not re-read -/
+def Edit.apply (e : Edit) (c : Case) : Case :=
+  { c with data := e.data.getD c.data, value := e.value.getD c.value, pred := e.pred.getD c.pred }
+
+/-- a scripted case with the edits of its two hooks (`After` writes `Data` / `Error` / `Constraint` only) -/
+structure XCase where
+  base : Case
+  before : Edit
+  after : Edit
+  deriving DecidableEq, Repr
+
+/-- the case as it stands when the helper reads `Error` / `Data` / `Value`: `Before` has written, then `After` -/
+def XCase.eff (x : XCase) : Case :=
+  let c1 := if x.base.before == .nil then x.base else x.before.apply x.base
+  if x.base.after == .nil then c1 else ({ x.after with value := .none } : Edit).apply c1
+
+/-- the helpers over cases whose hooks edit them -/
+def runX (h : Helper) (tk : TypeKind) (hb : Option HelperBeh) (xs : List XCase) : Bool × List Bool :=
+  run h tk hb (xs.map XCase.eff)
+
 end U.TestKit
